@@ -1,5 +1,6 @@
 SPECIFICATION Spec
 CONSTANT MaxLen = 3
+CONSTANT Alphabet <- ReducedAlphabet
 CONSTANT Mode = "inverse"
 INVARIANT InverseOK
 INVARIANT Emit
